@@ -523,7 +523,7 @@ func (m *model) computeSites() {
 						continue
 					}
 					callee, ok := (*op).(*ssa.Function)
-					if !ok || callee.Pkg != m.pkg {
+					if !ok || (callee.Pkg != m.pkg && callee.Pkg != m.cffp) {
 						continue
 					}
 					m.refs[callee]++
@@ -980,7 +980,8 @@ type atom struct {
 	bv   ssa.Value
 	iter bool // loop-iteration test (index < len / channel-range ok): not a user condition
 	ifi  *ssa.If
-	br   bool // which edge of ifi establishes the atom
+	br   bool        // which edge of ifi establishes the atom
+	via  *ssa.Return // the atom holds in a single-site helper at this return, which the caller's test of the helper's boolean result selects
 }
 
 // target: the block entered when the atom's condition was just established.
@@ -1061,7 +1062,61 @@ func (m *model) localAtoms(b *ssa.BasicBlock) []atom {
 		out = append(out, a)
 	}
 	m.guardMemo[b] = out
+	// a test of the boolean result of a single-site helper that returns that constant at exactly one place
+	// (`if stop := s.recordFailure(job, err); stop { return }`) establishes everything that holds there
+	for _, a := range out {
+		if r := m.correlatedReturn(a); r != nil {
+			for _, x := range m.localAtoms(r.Block()) {
+				if x.via == nil {
+					x.via = r
+				}
+				out = append(out, x)
+			}
+		}
+	}
+	m.guardMemo[b] = out
 	return out
+}
+
+// correlatedReturn: atom a tests the boolean result of a helper called from this one place; the helper
+// returns the tested constant at exactly one return statement and the opposite constant at all others.
+func (m *model) correlatedReturn(a atom) *ssa.Return {
+	var call *ssa.Call
+	ok, val := boolIs(a, func(v ssa.Value) bool {
+		c, isCall := ssax.Unspill(v).(*ssa.Call)
+		if isCall {
+			call = c
+		}
+		return isCall
+	})
+	if !ok || call == nil {
+		return nil
+	}
+	callee := call.Call.StaticCallee()
+	if callee == nil || callee.Blocks == nil || m.site[callee] != ssa.CallInstruction(call) || callee.Signature.Results().Len() != 1 {
+		return nil
+	}
+	var hit *ssa.Return
+	for _, b := range callee.Blocks {
+		if b == callee.Recover || len(b.Instrs) == 0 {
+			continue
+		}
+		r, isRet := b.Instrs[len(b.Instrs)-1].(*ssa.Return)
+		if !isRet || len(r.Results) != 1 {
+			continue
+		}
+		switch {
+		case ssax.IsConstBool(r.Results[0], val):
+			if hit != nil {
+				return nil
+			}
+			hit = r
+		case ssax.IsConstBool(r.Results[0], !val):
+		default:
+			return nil // a computed result: the constant does not identify the path
+		}
+	}
+	return hit
 }
 
 // isIterTest: the If is the iteration test of a slice traversal or of a channel range.
